@@ -184,6 +184,8 @@ func (w *vf15World) connect(rt *rapid.T, addr string, how int) {
 		w.failf(rt, "VIOL[c15-ticket-not-used]: connection #%d to %s: the store holds the valid ticket #%d (survived %d restarts), client sent a %v handshake of %d bytes", id, addr, mt.t.Serial, mt.restarts, l.hello.Kind, len(l.blob))
 	}
 
+	data := vf15Fill(w.k, 0x4000+uint64(id), 1+id%40)
+	coalesced := false
 	if wantTicket {
 		w.must(rt, l.checkHello())
 		if l.hello.Kind != refss.KindTicket {
@@ -254,21 +256,45 @@ func (w *vf15World) connect(rt *rapid.T, addr string, how int) {
 			w.failf(rt, "VIOL[c15-handshake-kind]: connection #%d: expected UniformDH, server parsed %v", id, l.hello.Kind)
 		}
 		l.writeResponse(l.respond(priv, alt, vf15Fill(w.k, 0x2000+uint64(id), pad)))
+		// the server may send packets right behind the response, in the same flight
+		var coTicket *refss.Ticket
+		switch rapid.IntRange(0, 3).Draw(rt, "coalesce") {
+		case 1:
+			l.packet(refss.FlagPayload, data, id%5, nil)
+			coalesced = true
+		case 2:
+			w.issues++
+			coTicket = srv.Auth.Issue(vf15Fill(w.k, 0x5000+uint64(w.issues), 16))
+			l.packet(refss.FlagNewTicket, coTicket.Payload(), id%3, nil)
+		}
 		cuts := vf15DrawCuts(rt, l.respLen, l.queued)
 		for _, cut := range append(cuts, l.queued) {
 			w.must(rt, l.release(cut-int(l.n.Released(wire.B))))
 		}
 		w.must(rt, l.handshakeDone(fmt.Sprintf("UniformDH handshake #%d to %s pad=%d cuts=%v", id, addr, pad, cuts)))
+		w.must(rt, l.checkDelivery(fmt.Sprintf("UniformDH handshake #%d to %s pad=%d flight=%d cuts=%v", id, addr, pad, l.queued, cuts)))
 		w.cls["udh-handshake"] = true
-		w.log[len(w.log)-1] += fmt.Sprintf("=DH(pad %d cuts %v)", pad, cuts)
+		w.log[len(w.log)-1] += fmt.Sprintf("=DH(pad %d flight %d cuts %v)", pad, l.queued, cuts)
+		if coalesced {
+			w.cls["data-coalesced-with-response"] = true
+		}
+		if coTicket != nil {
+			w.live[addr] = vf15MTicket{t: coTicket, stamp: time.Now().Unix()}
+			w.file = vf15CopyStore(w.live)
+			w.cls["issue"] = true
+			w.cls["ticket-coalesced-with-response"] = true
+			w.log[len(w.log)-1] += fmt.Sprintf("+T%d", coTicket.Serial)
+		}
 	}
 
 	// a short exchange proves that both sides derived the same keys
 	ctx := fmt.Sprintf("connection #%d to %s (%v)", id, addr, l.hello.Kind)
 	w.must(rt, l.clientWrite(vf15Fill(w.k, 0x3000+uint64(id), 1+id%50), nil))
 	w.must(rt, l.upstreamComplete(ctx))
-	l.packet(refss.FlagPayload, vf15Fill(w.k, 0x4000+uint64(id), 1+id%40), id%5, nil)
-	w.must(rt, l.flushAndCompare(ctx))
+	if !coalesced {
+		l.packet(refss.FlagPayload, data, id%5, nil)
+	}
+	w.must(rt, l.finalCompare(ctx, id%2 == 0))
 	keep = true
 	w.open = append(w.open, &vf15Open{l: l, addr: addr, id: id})
 	if len(w.open) > 4 {
@@ -571,13 +597,15 @@ func TestVerifC15Histories(t *testing.T) {
 		t.Fatalf("reference server anchors: %v", err)
 	}
 	c := vf15Evidence()
-	c.Rule("histories: rapid state machine over one state directory and three bridge addresses (two share the host; own secret and ticket authority each): connect (UniformDH response with drawn padding and 1..3 segments, or ticket handshake; then a short exchange both ways), issueTicket (NEW_TICKET on any of up to 4 open sessions, packet optionally split), closeSession, restart (sessions closed, new ClientFactory on the same directory), set the age of a ticket in the live store or in the JSON file absolutely (issuedAt = now - (lifetime + 1 s .. 10 d), or to leave >= 1 h), age(delta): time passes - issuedAt of EVERY entry of the live store and of the file moved back by delta in {1/5/30 s, lifetime - eps, eps, lifetime + eps, 1..8 days}, eps in {10, 20, 150, 600, 3600} s (delta enlarged so that no ticket ends within 8 s below the lifetime), agedAcrossRestart (ticket aged to lifetime - eps or some days, restart, aged to lifetime + eps', connect), wrongSecret, tamperResponse; model: <= 1 ticket per address with its age (sum of all agings since issue, NOT reset by a restart; valid iff age < lifetime, cases in which real time makes that too close to call are discarded), removed and checkpointed before use; oracle per connect: ticket handshake with exactly the stored ticket iff the model holds an unexpired one, otherwise UniformDH; no 112-byte ticket ever appears twice on the wire; non-trivial = a ticket that survived a restart is used, or an expired ticket falls back to UniformDH; fingerprint = seed and action log")
+	c.Rule("histories: rapid state machine over one state directory and three bridge addresses (two share the host; own secret and ticket authority each): connect (UniformDH response with drawn padding, optionally with a data packet or a NEW_TICKET packet in the same flight, cut in 1..3 segments; or ticket handshake; then a short exchange both ways; whatever has arrived completely must be delivered / stored at quiescence without further traffic), issueTicket (NEW_TICKET on any of up to 4 open sessions, packet optionally split), closeSession, restart (sessions closed, new ClientFactory on the same directory), set the age of a ticket in the live store or in the JSON file absolutely (issuedAt = now - (lifetime + 1 s .. 10 d), or to leave >= 1 h), age(delta): time passes - issuedAt of EVERY entry of the live store and of the file moved back by delta in {1/5/30 s, lifetime - eps, eps, lifetime + eps, 1..8 days}, eps in {10, 20, 150, 600, 3600} s (delta enlarged so that no ticket ends within 8 s below the lifetime), agedAcrossRestart (ticket aged to lifetime - eps or some days, restart, aged to lifetime + eps', connect), wrongSecret, tamperResponse; model: <= 1 ticket per address with its age (sum of all agings since issue, NOT reset by a restart; valid iff age < lifetime, cases in which real time makes that too close to call are discarded), removed and checkpointed before use; oracle per connect: ticket handshake with exactly the stored ticket iff the model holds an unexpired one, otherwise UniformDH; no 112-byte ticket ever appears twice on the wire; non-trivial = a ticket that survived a restart is used, or an expired ticket falls back to UniformDH; fingerprint = seed and action log")
 	c.Floor("ticket-after-restart/histories", 0.30)
 	c.Floor("expired-falls-back/histories", 0.20)
 	c.Floor("ticket-handshake/histories", 0.50)
 	c.Floor("expire-file/histories", 0.15)
 	c.Floor("expire-live/histories", 0.15)
 	c.Floor("age/histories", 0.50)
+	c.Floor("ticket-coalesced-with-response/histories", 0.30)
+	c.Floor("data-coalesced-with-response/histories", 0.30)
 	c.Floor("aged-restart-aged-expired/histories", 0.20)
 	rapid.Check(t, func(rt *rapid.T) {
 		k := rapid.Uint64().Draw(rt, "seed")
